@@ -7,6 +7,7 @@ import (
 	"testing"
 
 	"github.com/lni/dragonboat/v4/internal/vfhelp"
+	"github.com/lni/dragonboat/v4/logger"
 	"pgregory.net/rapid"
 )
 
@@ -75,4 +76,36 @@ func TestVF_C16_ReplayPlan(t *testing.T) {
 			t.Logf("run %d: fired=%v labels=%v", i, nt, labels)
 		})
 	}
+}
+
+// TestVF_C17_ReplayPlan reruns one c17Plan (VF_PLAN=<json>); VF_LOG=1 turns the
+// library's INFO logging on.
+func TestVF_C17_ReplayPlan(t *testing.T) {
+	path := os.Getenv("VF_PLAN")
+	if path == "" {
+		t.Skip("VF_PLAN not set")
+	}
+	data, err := os.ReadFile(path)
+	if err != nil {
+		t.Fatal(err)
+	}
+	var p c17Plan
+	if err := json.Unmarshal(data, &p); err != nil {
+		t.Fatal(err)
+	}
+	if os.Getenv("VF_LOG") != "" {
+		for _, n := range []string{"raft", "dragonboat"} {
+			logger.GetLogger(n).SetLevel(logger.INFO)
+		}
+		if os.Getenv("VF_LOG") == "2" {
+			logger.GetLogger("transport").SetLevel(logger.DEBUG)
+			logger.GetLogger("raft").SetLevel(logger.DEBUG)
+			logger.GetLogger("dragonboat").SetLevel(logger.DEBUG)
+		}
+	}
+	st := vfhelp.NewStats("TestVF_C17_ReplayPlan", "replay")
+	rapid.Check(t, func(rt *rapid.T) {
+		labels, nt, ok := runC17(rt, st, p)
+		t.Logf("ok=%v nontrivial=%v labels=%v", ok, nt, labels)
+	})
 }
